@@ -215,8 +215,124 @@ func (ck *Check) nonNegative(v ssa.Value, seen map[ssa.Value]bool, depth int) bo
 		}
 	case *ssa.Call:
 		return ck.resultNonNegative(x, 0, seen, depth)
+	case *ssa.Field:
+		// a field of a structure value (the count of a result structure)
+		return ck.structFieldNonNeg(x.X, x.Field, seen, depth)
+	case *ssa.UnOp:
+		if x.Op == token.MUL {
+			if fa, ok := x.X.(*ssa.FieldAddr); ok {
+				if al, ok := fa.X.(*ssa.Alloc); ok {
+					return ck.allocFieldNonNeg(al, fa.Field, seen, depth)
+				}
+			}
+		}
 	}
 	return false
+}
+
+// allocField keys the coinductive hypothesis "field f of local al is non-negative".
+type allocField struct {
+	ssa.Value
+	f int
+}
+
+// structFieldNonNeg: field f of the structure value v is non-negative: v is the zero value, the
+// content of a local all of whose writes to f are non-negative, or what repo functions return.
+func (ck *Check) structFieldNonNeg(v ssa.Value, f int, seen map[ssa.Value]bool, depth int) bool {
+	if depth > 6 {
+		return false
+	}
+	switch x := v.(type) {
+	case *ssa.Const:
+		return x.Value == nil // the zero structure
+	case *ssa.UnOp:
+		if al, ok := x.X.(*ssa.Alloc); ok && x.Op == token.MUL {
+			return ck.allocFieldNonNeg(al, f, seen, depth)
+		}
+	case *ssa.Phi:
+		for _, e := range x.Edges {
+			if !ck.structFieldNonNeg(e, f, seen, depth+1) {
+				return false
+			}
+		}
+		return true
+	case *ssa.Call, *ssa.Extract:
+		idx := 0
+		c, _ := x.(*ssa.Call)
+		if ex, ok := x.(*ssa.Extract); ok {
+			c, _ = ex.Tuple.(*ssa.Call)
+			idx = ex.Index
+		}
+		if c == nil {
+			return false
+		}
+		g := c.Call.StaticCallee()
+		if g == nil || g.Blocks == nil || !ck.P.inRepo(g) {
+			return false
+		}
+		found := false
+		for _, b := range g.Blocks {
+			r, ok := b.Instrs[len(b.Instrs)-1].(*ssa.Return)
+			if !ok || idx >= len(r.Results) {
+				continue
+			}
+			found = true
+			if !ck.structFieldNonNeg(r.Results[idx], f, seen, depth+1) {
+				return false
+			}
+		}
+		return found
+	}
+	return false
+}
+
+// allocFieldNonNeg: every value ever stored into field f of the local al is non-negative (the
+// zero value it starts with included), and the field's address goes nowhere else.
+func (ck *Check) allocFieldNonNeg(al *ssa.Alloc, f int, seen map[ssa.Value]bool, depth int) bool {
+	key := allocField{al, f}
+	if seen[key] {
+		return true // coinductive: count = count + 1
+	}
+	if depth > 6 || al.Referrers() == nil {
+		return false
+	}
+	seen[key] = true
+	defer delete(seen, key)
+	for _, r := range *al.Referrers() {
+		switch x := r.(type) {
+		case *ssa.DebugRef:
+		case *ssa.UnOp:
+			if x.Op != token.MUL {
+				return false
+			}
+		case *ssa.Store:
+			if x.Addr != ssa.Value(al) || !ck.structFieldNonNeg(x.Val, f, seen, depth+1) {
+				return false
+			}
+		case *ssa.FieldAddr:
+			if x.Field != f {
+				continue
+			}
+			for _, rr := range *x.Referrers() {
+				switch y := rr.(type) {
+				case *ssa.DebugRef:
+				case *ssa.UnOp:
+					if y.Op != token.MUL {
+						return false
+					}
+				case *ssa.Store:
+					if y.Addr != ssa.Value(x) || !ck.nonNegative(y.Val, seen, depth+1) {
+						return false
+					}
+				default:
+					return false
+				}
+			}
+		default:
+			return false
+		}
+	}
+	return true
 }
 
 func (ck *Check) resultNonNegative(c *ssa.Call, idx int, seen map[ssa.Value]bool, depth int) bool {
